@@ -52,6 +52,7 @@ type svcPlan struct {
 	fetches int
 	peek    types.ServiceID // service whose info is read and stored (0: none)
 	ejects  []types.ServiceID // zombie services this one ejects (before its transfers)
+	creates int               // services this one creates (merged into the posterior accounts from several results)
 }
 
 type scenario struct {
@@ -143,6 +144,16 @@ func buildProgram(p *svcPlan, nCores int, all []types.ServiceID) []byte {
 		a.LoadImm64(9, uint64(all[0]))
 		a.Ecalli(15)
 	}
+	for k := 0; k < p.creates; k++ {
+		ch := h256(append(u32le(uint32(p.id)), byte(k), 0xC7))
+		a.LoadImm64(7, d.Put(ch[:]))
+		a.LoadImm64(8, uint64(30+k))
+		a.LoadImm64(9, 3)
+		a.LoadImm64(10, 4)
+		a.LoadImm64(11, 0)
+		a.LoadImm64(12, 0)
+		a.Ecalli(18) // new
+	}
 	for _, z := range p.ejects {
 		a.LoadImm64(7, uint64(z))
 		a.LoadImm64(8, d.Put(zombieLookup.Hash[:]))
@@ -233,6 +244,9 @@ func genScenario(t *sim.Tape) *scenario {
 			}
 		}
 		p.yield = t.Bool("yield")
+		if t.Prob(1, 3, "creates_services") {
+			p.creates = 1 + t.Choose(2, "ncreates")
+		}
 		if t.Bool("peek") {
 			p.peek = ids[(i+1+t.Choose(n-1, "peek_who"))%n]
 		}
@@ -596,6 +610,14 @@ func runOne(tt *testing.T, r *sim.Run) {
 						what = "queues-or-validator-keys"
 					}
 					break
+				}
+			}
+			if os.Getenv("H2_DUMP") != "" { // development aid
+				for _, l := range base.lines {
+					r.Logf("BASE %s", l)
+				}
+				for _, l := range res.lines {
+					r.Logf("ARM  %s", l)
 				}
 			}
 			r.Violate(prop, "differs", "posterior-differs-"+what, "same inputs, different posterior state: arm %v vs baseline {workers=1 map=sorted sched=first}%s\n scenario %s", a, diff, sc.desc)
